@@ -48,10 +48,40 @@ fn wop_strategy() -> BoxedStrategy<WOp> {
     .boxed()
 }
 
+/// Composite pieces that put a handle into the states single ops rarely reach: dirty window
+/// in the middle of a longer stream followed by a read that has to write it back, etc.
+fn piece_strategy() -> BoxedStrategy<Vec<WOp>> {
+    let slot = 0u8..2;
+    let small = || (proptest::sample::select(vec![1u32, 10, 100, 500, 1000]), any::<u8>()).prop_map(|(len, seed)| DataSpec { len, seed });
+    let large = || (proptest::sample::select(vec![1500u32, 3000, 4096, 5000]), any::<u8>()).prop_map(|(len, seed)| DataSpec { len, seed });
+    prop_oneof![
+        12 => wop_strategy().prop_map(|o| vec![o]),
+        // long content, flush, overwrite near the start, read across the window end
+        2 => (slot.clone(), 0u8..3, large(), small(), any::<u16>(), 100u32..3000).prop_map(|(slot, name, big, sm, frac, n)| vec![
+            WOp::CreateStream { slot, name },
+            WOp::WriteAll { slot, data: big },
+            WOp::Flush { slot },
+            WOp::SeekStart { slot, frac: frac / 8 },
+            WOp::Write { slot, data: sm },
+            WOp::Read { slot, n },
+            WOp::Flush { slot },
+        ]),
+        // overwrite + seek elsewhere (window move writes back) + flush
+        1 => (slot.clone(), small(), any::<u16>()).prop_map(|(slot, sm, frac)| vec![
+            WOp::SeekStart { slot, frac: 0 },
+            WOp::Write { slot, data: sm },
+            WOp::SeekStart { slot, frac },
+            WOp::Read { slot, n: 10 },
+            WOp::Flush { slot },
+        ]),
+    ]
+    .boxed()
+}
+
 fn strategy(tier: Tier) -> BoxedStrategy<C13Case> {
-    let n = if tier == Tier::Thorough { 30 } else { 22 };
-    (proptest::sample::select(vec![3u8, 4]), proptest::sample::select(vec![Some(1024u32), Some(1024), Some(4096), None]), vec(wop_strategy(), 5..=n))
-        .prop_map(|(version, max_buf, script)| C13Case { version, max_buf, script })
+    let n = if tier == Tier::Thorough { 24 } else { 18 };
+    (proptest::sample::select(vec![3u8, 4]), proptest::sample::select(vec![Some(1024u32), Some(1024), Some(4096), None]), vec(piece_strategy(), 4..=n))
+        .prop_map(|(version, max_buf, pieces)| C13Case { version, max_buf, script: pieces.into_iter().flatten().take(28).collect() })
         .boxed()
 }
 
@@ -70,7 +100,12 @@ fn report(c: &C13Case) -> CaseReport {
     };
     rep.evaluations += 1;
     let n = base.n_calls;
-    for k in 0..n {
+    // every position for workloads up to 1500 underlying calls; longer ones are strided
+    // (stride and offset are a function of the case) so that one case stays cheap
+    let stride = (n / 1500).max(1);
+    let offset = if stride > 1 { case_hash % stride } else { 0 };
+    rep.classes.push(if stride == 1 { "all_positions".into() } else { "strided_positions".into() });
+    for k in (offset..n).step_by(stride as usize) {
         let ctl = new_ctl(FaultDomain::WriteSide);
         {
             let mut g = ctl.lock().unwrap();
@@ -115,11 +150,11 @@ pub fn def() -> PropDef {
         level: "fault_enumeration",
         rule: "mutating workload of 5-22 calls on a fresh file (create/remove storages and streams in a fixed 8-name namespace, write/write_all in chunks around the buffer capacity through up to 2 handles, seek, set_len, read, flush, close, set_state_bits, CompoundFile::flush; buffer sizes 1024/4096/default, both versions); the fault-free run counts N underlying write+seek+flush calls, then one run per k in [0,N) with call k failing; after an Err the call is retried once. Oracle: (a) the API call during which the fault fired returns Err (Drop exempt, as documented); (b) nothing panics and the worker's CPU budget holds; (c) whenever Stream::flush returns Ok, the underlying writer was flushed and a fresh handle reads back every byte accepted by earlier write calls on that handle at its offset (read-back Err is also a violation). evaluations = executions; a non-trivial item = an execution where the fault hit a call on a handle holding accepted-but-unflushed bytes and a later flush on that handle returned Ok; distinct = distinct (case, k).",
         assumptions: &["single faults are enumerated exhaustively per workload; workloads are sampled", "offsets truncated (or possibly truncated by a failed set_len) are dropped from the expectation"],
-        quick_cases: 60,
+        quick_cases: 30,
         thorough_cases: 1500,
         worker,
         solo,
-        hang_cpu_s: 120.0,
+        hang_cpu_s: 300.0,
         extra: None,
         confirm_known: false,
     }
